@@ -2,7 +2,7 @@
 records, level cap, reader initialisation histories and file names, the sink csv parser."""
 from __future__ import annotations
 
-from ..models import ModelEval, Marker, Raised
+from ..models import ModelEval, Marker, Raised, PyObj
 from ..peval import Model, Unsupported, ProgramRaised
 from ..source import AnalysisError
 from ..symnp import Sym, origin_of
@@ -704,6 +704,7 @@ def check_derived_variables(run, tree):
         construct = "config/defaults.py::additional_variables[%s]" % label
         try:
             before = {g: set(v) for g, v in data.items()}
+            inputs = {(g, k): (tok, tok.origin, tok.unit.name) for g, v in data.items() for k, tok in v.items()}
             try:
                 ModelEval(tree, fi, {}, {}).invoke(fi, [data], {}, None)
             except (Raised, ProgramRaised) as e:
@@ -714,6 +715,13 @@ def check_derived_variables(run, tree):
             if new != want_new or set(data) != set(before):
                 problems.append("derived variables %s in groups %s (required %s in the mesh group)" % (sorted(new), sorted(data), sorted(want_new)))
             m = data.get("mesh", {})
+            for (g, k), (tok, origin, unit) in inputs.items():
+                cur = data.get(g, {}).get(k)
+                if cur is not tok or tok.origin != origin or tok.unit.name != unit:
+                    problems.append("the loaded variable %s/%s was changed: now %r [%s] (a derived variable computed in place in its buffer)" % (g, k, getattr(cur, "origin", cur), getattr(getattr(cur, "unit", None), "name", None)))
+            for k in new:
+                if any(m.get(k) is tok for tok, _, _ in inputs.values()):
+                    problems.append("the derived variable %s IS the object of a loaded variable" % k)
             try:
                 if "B_field" in want_new and "B_field" in m:
                     got = sem(m["B_field"].origin)
@@ -779,3 +787,86 @@ def check_units_library(run, tree):
         run.violated(construct, gi.where(), "raises %s" % e, "unit lookup")
     except ERR as e:
         run.unresolved(construct, gi.where(), "cannot fold: %s" % e)
+
+
+# =============================================================================== io/ramses.py::RamsesDataset.load histories
+def check_dataset_load_history(run, tree):
+    """RamsesDataset.load interpreted on the real Dataset/Datagroup classes with a loader model that hands out prepared groups: after any
+    sequence of loads each group present IS what the most recent call producing it returned (same members, nothing carried over from the
+    group it replaces), groups of earlier calls stay, the derived-variable hook runs on the dataset after every load"""
+    from .core_models import ArrTok, core_hooks
+    from .core_folds import DS_Q, DG_Q, call_method, new_group
+    ci = tree.cls("io/ramses.py::RamsesDataset")
+    load = tree.method(ci, "load") if ci is not None else None
+    if load is None:
+        run.unresolved("io/ramses.py::RamsesDataset.load", "src/osyris/io/ramses.py", "RamsesDataset.load not found")
+        return
+    run.analysed(load)
+
+    class LoaderModel(Model):
+        def __init__(self, script):
+            self.script, self.calls = list(script), []
+
+        def load(self, *a, **k):
+            self.calls.append((a, dict(k)))
+            return self.script.pop(0)
+
+    def group(hooks, members, n):
+        g = new_group(tree, hooks)
+        for k in members:
+            call_method(tree, hooks, g, "__setitem__", k, ArrTok(("load%d" % n, k), "u", (4,)))
+        return g
+
+    histories = [
+        ("full mesh, then the same cells with fewer variables", [{"mesh": ["density", "pressure", "level"]}, {"mesh": ["density"]}]),
+        ("fewer variables, then all", [{"mesh": ["density"]}, {"mesh": ["density", "pressure"]}]),
+        ("mesh and particles, then particles only", [{"mesh": ["density"], "part": ["mass", "id"]}, {"part": ["mass"]}]),
+        ("the same call twice", [{"mesh": ["density", "level"]}, {"mesh": ["density", "level"]}]),
+        ("three loads with alternating variable sets", [{"mesh": ["density", "level"]}, {"mesh": ["level"]}, {"mesh": ["density"]}]),
+    ]
+    for label, seq in histories:
+        construct = "io/ramses.py::RamsesDataset.load[history: %s]" % label
+        try:
+            hooks = core_hooks()
+            hooked = []
+            hooks.setdefault("pkgfunc", {})["config/defaults.py::additional_variables"] = lambda data: hooked.append(data)
+
+            class Cfg(Model):
+                def additional_variables(self, data):
+                    hooked.append(data)
+            hooks.setdefault("globals", {}).update({"config/__init__.py::config": Cfg(), "__init__.py::config": Cfg()})
+            groups = [{name: group(hooks, members, i) for name, members in step.items()} for i, step in enumerate(seq)]
+            ds = PyObj(ci)
+            ds._attrs.update({"groups": {}, "meta": {"ncells": 0}, "units": "UNITS", "loader": LoaderModel(groups)})
+            problems = []
+            latest = {}
+            for i, step in enumerate(seq):
+                n_hook = len(hooked)
+                r = ModelEval(tree, load, {}, hooks).invoke(load, [ds], {"select": "SELECT-%d" % i}, None)
+                if r is not ds:
+                    problems.append("load %d returns %r (required the dataset)" % (i + 1, r))
+                latest.update({name: (i, groups[i][name], step[name]) for name in step})
+                cont = ds._attrs["groups"]
+                if list(cont) != list(latest):
+                    problems.append("after load %d the dataset holds %s (required %s)" % (i + 1, list(cont), list(latest)))
+                for name, (j, gobj, members) in latest.items():
+                    g = cont.get(name)
+                    if g is None:
+                        continue
+                    have = {k: getattr(v, "origin", v) for k, v in g._attrs["_container"].items()}
+                    want = {k: ("load%d" % j, k) for k in members}
+                    if have != want:
+                        problems.append("after load %d group %r holds %s (required what load %d returned: %s)" % (i + 1, name, have, j + 1, want))
+                if len(hooked) != n_hook + 1 or hooked[-1] is not ds:
+                    problems.append("load %d: the derived-variable hook ran %d time(s)%s" % (i + 1, len(hooked) - n_hook, "" if not hooked or hooked[-1] is ds else " on another object"))
+                if problems:
+                    break
+            lm = ds._attrs["loader"]
+            if not problems and any(c[1].get("meta") is not ds._attrs["meta"] or c[1].get("units") != "UNITS" or not c[1].get("select", "").startswith("SELECT") for c in lm.calls):
+                problems.append("the loader is not given the dataset's own meta / units / the caller's arguments: %r" % ([sorted(c[1]) for c in lm.calls],))
+            run.ob(construct, not problems, load.where(), "; ".join(problems[:2]) or "every group is what the latest call producing it returned; earlier groups kept; hook applied each time",
+                   "a reload with fewer variables (or another row order) keeps variables of the group it replaces: values from another selection next to the new ones")
+        except (Raised, ProgramRaised) as e:
+            run.violated(construct, load.where(), "raises %s" % e, "repeated load() on one dataset")
+        except ERR as e:
+            run.unresolved(construct, load.where(), "cannot fold: %s" % e)
